@@ -43,7 +43,9 @@ Record cfg := mkCfg {
   c_fix_anchor : bool;
   c_fix_srvpubs : bool;
   c_batch : bool;         (* per-channel batching (GetChannelBatchConfig with MaxDelay/MaxSize) *)
-  c_fix_off0 : bool       (* PATCH (C10): offset-less publications check flagSubscribed too *)
+  c_fix_off0 : bool;      (* PATCH (C10): offset-less publications check flagSubscribed too *)
+  c_fix_srvorder : bool;  (* PATCH (C10): Client.Subscribe writes its push BEFORE the commit *)
+  c_fix_delw : bool       (* PATCH (C10): unsubscribe deletes the channel writer AFTER the hub removal *)
 }.
 
 Inductive frame :=
@@ -397,10 +399,14 @@ Definition step (c : cfg) (s : st) (l : label) : option st :=
       | _, _ => None
       end
   | LCommit =>
-      match pc s, c_var c with
-      | SReplied r, VClient => Some (set_pc (set_ch s (Sub (r_pos r) (r_ep r)) (r_pos r)) SCommitted)
-      | SMerged r, VServer => Some (set_pc (set_ch s (Sub (r_pos r) (r_ep r)) (r_pos r)) (SSrvCommitted r))
-      | _, _ => None
+      match pc s with
+      | SReplied r =>   (* client path; patched server path (push already written) *)
+          Some (set_pc (set_ch s (Sub (r_pos r) (r_ep r)) (r_pos r)) SCommitted)
+      | SMerged r =>
+          if is_server c && negb (c_fix_srvorder c)
+          then Some (set_pc (set_ch s (Sub (r_pos r) (r_ep r)) (r_pos r)) (SSrvCommitted r))
+          else None
+      | _ => None
       end
   | LSrvPush =>
       match pc s with
@@ -410,6 +416,13 @@ Definition step (c : cfg) (s : st) (l : label) : option st :=
              channel are still held back by the locked buffer at this point) *)
           let pubs := if c_fix_srvpubs c then map FPub (r_pubs r) else [] in
           Some (set_pc (emits s (FSubPush (r_off r) (r_ep r) :: pubs)) SSrvStop)
+      | SMerged r =>
+          (* PATCH (c_fix_srvorder): push first, then commit -- from here on the thread goes
+             through the same states as the client path (SReplied, SCommitted) *)
+          if is_server c && c_fix_srvorder c then
+            let pubs := if c_fix_srvpubs c then map FPub (r_pubs r) else [] in
+            Some (set_pc (emits s (FSubPush (r_off r) (r_ep r) :: pubs)) (SReplied r))
+          else None
       | _ => None
       end
   | LStopBuf =>
@@ -450,7 +463,7 @@ Definition step (c : cfg) (s : st) (l : label) : option st :=
               if is_server c then None else
               match ch s with
               | Reserved => None
-              | Sub _ _ => Some (set_up (set_ch (set_cw (set_pending s n) []) NoCh (g_pos s)) (UHub UInsuff))
+              | Sub _ _ => Some (set_up (set_ch (set_cw (set_pending s n) (if c_fix_delw c then cw s else [])) NoCh (g_pos s)) (UHub UInsuff))
               | NoCh => Some (set_up (set_pending s n) (UOut UInsuff))
               end
           end
@@ -460,13 +473,13 @@ Definition step (c : cfg) (s : st) (l : label) : option st :=
           if closed s || negb (sub_finished s) then None else
           match ch s with
           | Reserved => None
-          | Sub _ _ => Some (set_up (set_ch (set_cw s []) NoCh (g_pos s)) (UHub k))   (* delWriter discards the batch *)
+          | Sub _ _ => Some (set_up (set_ch (set_cw s (if c_fix_delw c then cw s else [])) NoCh (g_pos s)) (UHub k))   (* delWriter discards the batch *)
           | NoCh => Some (set_up s (UOut k))
           end
       end
   | LUnsubHub =>
       match up s with
-      | UHub k => if dl_idle s then Some (set_up (set_hub s false) (UOut k)) else None
+      | UHub k => if dl_idle s then Some (set_up (set_hub (if c_fix_delw c then set_cw s [] else s) false) (UOut k)) else None
       | _ => None
       end
   | LUnsubOut =>
